@@ -67,7 +67,7 @@ class E2Session(SessionBase):
     def __init__(self, world, props, known=None):
         super().__init__(world, props, known)
         self.grid = sa.DEFAULT_GRID
-        self.g = world['gslots']
+        self.g = world.get('gslots', 4)
         self.oms_list = []
         self.model = []          # per OMS: dict n -> 'F' | 'O' | 'U' | 'P'
         self.services = []       # per OMS: list of (request_id, nb_wl)
@@ -77,9 +77,122 @@ class E2Session(SessionBase):
         self.rejected = 0
 
     def setup(self):
+        if self.world['kind'] == 'net':
+            return self._setup_net()
         for o in self.world['oms']:
             self._create(o)
         self._align_and_check('initial')
+
+    # ---------------------------------------------------------------------------------------------------------
+    # designed-world layer: real network, real build_oms_list, real routed paths
+    def _setup_net(self):
+        from . import gn
+        from gnpy.core.elements import Roadm, Transceiver, Edfa, Multiband_amplifier
+        gn.reset_process_globals()
+        try:
+            self.equipment, self.network, _ = gn.fresh_designed(self.world)
+        except gn.REJECT as e:
+            self.discarded = f'world-rejected:{type(e).__name__}'
+            return
+        bands = set()
+        for n in self.network.nodes():
+            if isinstance(n, (Edfa, Multiband_amplifier)):
+                bands.add(tuple(sorted((b['f_min'], b['f_max']) for b in n.params.bands)))
+        if len(bands) > 1:
+            self.st.probes['mixed_band_network'] += 1
+        try:
+            self.oms_list = sa.build_oms_list(self.network, self.equipment)
+        except (SpectrumError, ValueError, IndexError, KeyError, StopIteration) as e:
+            if 'C15' in self.props:
+                sig = 'oms-list-cannot-be-built:' + type(e).__name__ + (':mixed-band-network' if len(bands) > 1 else '')
+                if not self.known.is_open('C15', sig):
+                    raise Violation('C15', sig, f'build_oms_list on a designed network raised {e!r}'[:400],
+                                    signature=sig)
+            self.discarded = 'oms-list-cannot-be-built'
+            return
+        for i, oms in enumerate(self.oms_list):
+            bm = oms.spectrum_bitmap
+            self.model.append({n: {FREE: 'F', UNUS: 'U', OCC: 'P'}[b] for n, b in zip(bm.freq_index, bm.bitmap)})
+            self.services.append([])
+            self.own_extent.append((bm.n_min, bm.n_max))
+        if 'C15' in self.props:
+            self._check_structure('designed network')
+            self._check_partition()
+            self._check_usable_bands()
+
+    def _check_partition(self):
+        from gnpy.core.elements import Roadm, Transceiver
+        net = self.network
+        seen = {}
+        for i, oms in enumerate(self.oms_list):
+            els = oms.el_list
+            ends_ok = all(isinstance(e, Roadm) or (isinstance(e, Transceiver)) for e in (els[0], els[-1]))
+            if not ends_ok or any(isinstance(e, (Roadm, Transceiver)) for e in els[1:-1]):
+                raise Violation('C15', 'oms-does-not-run-from-roadm-to-roadm', f'oms {i}: {[e.uid for e in els][:8]}')
+            for a, b in zip(els, els[1:]):
+                if not net.has_edge(a, b):
+                    raise Violation('C15', 'oms-does-not-follow-the-graph', f'oms {i}: {a.uid} -> {b.uid} is no edge')
+            for e in els[1:-1]:
+                if e.uid in seen:
+                    raise Violation('C15', 'element-in-two-oms', f'{e.uid}: oms {seen[e.uid]} and {i}')
+                seen[e.uid] = i
+                if getattr(e, 'oms_id', None) != i or getattr(e, 'oms', None) is not oms:
+                    raise Violation('C15', 'element-oms-backreference-wrong', f'{e.uid}: oms_id {getattr(e, "oms_id", None)}')
+        for n in net.nodes():
+            if not isinstance(n, (Roadm, Transceiver)) and n.uid not in seen:
+                raise Violation('C15', 'line-element-without-oms', n.uid)
+        for i, oms in enumerate(self.oms_list):
+            r = oms.reversed_oms
+            want = [o for o in self.oms_list if o.el_id_list[0] == oms.el_id_list[-1]
+                    and o.el_id_list[-1] == oms.el_id_list[0]]
+            if r is None:
+                if want:
+                    raise Violation('C15', 'opposite-direction-not-paired', f'oms {i}')
+                continue
+            if r not in want:
+                raise Violation('C15', 'reversed-oms-is-not-the-opposite-direction', f'oms {i} -> oms {r.oms_id}')
+            if len(want) == 1 and r.reversed_oms is not oms:
+                raise Violation('C15', 'reversed-oms-pairing-not-mutual', f'oms {i} <-> oms {r.oms_id}')
+
+    def _check_usable_bands(self):
+        """a slot whose nominal frequency lies >= 1 grid step inside a band common to the OMS's amplifiers is FREE;
+        >= 1 step outside every common band it is not FREE (the +-1 slot at band edges is not judged)"""
+        from gnpy.core.elements import Edfa, Multiband_amplifier
+        si = self.equipment['SI']['default']
+        for i, oms in enumerate(self.oms_list):
+            amps = [e for e in oms.el_list if isinstance(e, (Edfa, Multiband_amplifier))]
+            common = None
+            for a in amps:
+                iv = [(b['f_min'], b['f_max']) for b in a.params.bands]
+                if common is None:
+                    common = iv
+                else:
+                    common = [(max(x0, y0), min(x1, y1)) for x0, x1 in common for y0, y1 in iv if max(x0, y0) < min(x1, y1)]
+            if common is None:
+                common = [(si.f_min, si.f_max)]
+            bm = oms.spectrum_bitmap
+            for n, b in zip(bm.freq_index, bm.bitmap):
+                f = 193.1e12 + n * self.grid
+                inside = any(lo + self.grid <= f <= hi - self.grid for lo, hi in common)
+                outside = all(f <= lo - self.grid or f >= hi + self.grid for lo, hi in common)
+                if inside and b is not FREE:
+                    raise Violation('C15', 'slot-inside-common-band-not-usable',
+                                    f'oms {i} slot {n} ({f * 1e-12:.5f} THz) inside {common} is {b.name}')
+                if outside and b is FREE:
+                    raise Violation('C15', 'slot-outside-every-common-band-usable',
+                                    f'oms {i} slot {n} ({f * 1e-12:.5f} THz) outside {common} is FREE')
+
+    def _real_paths(self, r):
+        from networkx import dijkstra_path, NetworkXNoPath
+        from gnpy.topology.request import find_reversed_path
+        nodes = {n.uid: n for n in self.network.nodes()}
+        a, b = r['route']
+        try:
+            pth = dijkstra_path(self.network, nodes[f'trx {a}'], nodes[f'trx {b}'], weight='weight')
+        except NetworkXNoPath:
+            return None, None
+        rpth = find_reversed_path(pth) if r['bidir'] else []
+        return pth, rpth
 
     # ---------------------------------------------------------------------------------------------------------
     def _create(self, o):
@@ -97,6 +210,10 @@ class E2Session(SessionBase):
         self.model.append(slots)
         self.services.append([])
         self.own_extent.append((lo, hi))
+
+    def world_summary(self):
+        from . import worlds
+        return worlds.summary(self.world) if self.world['kind'] == 'net' else self.world
 
     def common_extent(self):
         return min(e[0] for e in self.own_extent), max(e[1] for e in self.own_extent)
@@ -195,17 +312,29 @@ class E2Session(SessionBase):
         return ('ok', s + m, m)
 
     def do_assign(self, reqs, policy):
+        if self.discarded:
+            return {'kind': 'discarded'}
         rqs, pths, rpths = [], [], []
         nomax = len(self.oms_list)
         for r in reqs:
             self.req_counter += 1
             r['id'] = f'q{self.req_counter}'
-            rq = PathRequest(request_id=r['id'], source='a', destination='b', bidir=bool(r['rpath']),
+            rq = PathRequest(request_id=r['id'], source='a', destination='b',
+                             bidir=bool(r.get('rpath') or r.get('bidir')),
                              spacing=r['pcm'] * SLOT, bit_rate=BITRATE, path_bandwidth=r['nwl'] * BITRATE,
                              effective_freq_slot=[{'N': n, 'M': m} for n, m in r['slots']])
             if r['preblocked']:
                 rq.blocking_reason = r['preblocked']
             rqs.append(rq)
+            if self.world['kind'] == 'net':
+                pth, rpth = self._real_paths(r)
+                if pth is None:
+                    return {'kind': 'nopath'}
+                r['path'] = sorted({e.oms_id for e in pth if hasattr(e, 'oms_id')})
+                r['rpath'] = sorted({e.oms_id for e in rpth if hasattr(e, 'oms_id')})
+                pths.append(pth)
+                rpths.append(rpth)
+                continue
             pths.append([El(o % nomax) for o in r['path']])
             rpths.append([El(o % nomax) for o in r['rpath']])
         rec = RecordingRequests(rqs, self.snapshot)
@@ -379,6 +508,8 @@ class E2Session(SessionBase):
 
     # ---------------------------------------------------------------------------------------------------------
     def do_extend(self, lo, hi, usable):
+        if self.world['kind'] == 'net':
+            return {'kind': 'skip'}
         """a new OMS of a different extent joins the list, then all maps are aligned (as build_oms_list does)"""
         self._create({'lo': lo, 'hi': hi, 'usable': usable})
         padded = self._align_and_check('after extend')
@@ -387,6 +518,8 @@ class E2Session(SessionBase):
 
     def do_align(self):
         """re-aligning already aligned maps must change nothing"""
+        if self.discarded:
+            return {'kind': 'discarded'}
         before = self.snapshot()
         idx = [list(o.spectrum_bitmap.freq_index) for o in self.oms_list]
         self._align_and_check('re-align')
@@ -443,13 +576,23 @@ def request_strategy():
 
 def make_machine(prop, tier, cfg):
     props = {prop}
+    from . import worlds
+
+    @st.composite
+    def any_world(draw):
+        k = draw(st.integers(0, 9))
+        if k < 7:
+            return draw(synthetic_world(prop))
+        if prop == 'C15' and k < 9:
+            return draw(worlds.multiband_world_strategy())
+        return draw(worlds.world_strategy('small'))
 
     class E2Machine(RuleBasedStateMachine):
         def __init__(self):
             super().__init__()
             self.sess = None
 
-        @initialize(world=synthetic_world(prop), swarm=st.fixed_dictionaries({
+        @initialize(world=any_world(), swarm=st.fixed_dictionaries({
             'oog': st.booleans(), 'pre': st.booleans(), 'last_fit': st.booleans(), 'bad_policy': st.booleans(),
             'multi': st.booleans()}))
         def start(self, world, swarm):
@@ -460,6 +603,8 @@ def make_machine(prop, tier, cfg):
 
         def _resolve(self, r):
             s = self.sess
+            if s.discarded:
+                return {'path': [0], 'rpath': [], 'slots': [[None, None]], 'pcm': 4, 'nwl': 1, 'preblocked': None}
             cmin, cmax = s.common_extent()
             slots = []
             oog = self.swarm['oog'] and r['oog'] == 0
@@ -474,8 +619,14 @@ def make_machine(prop, tier, cfg):
             pre = None
             if self.swarm['pre'] and r['pre'] < 2:
                 pre = ['NO_PATH', 'MODE_NOT_FEASIBLE'][r['pre']]
-            return {'path': r['path'], 'rpath': r['rpath'], 'slots': slots, 'pcm': r['pcm'], 'nwl': r['nwl'],
-                    'preblocked': pre}
+            out = {'path': r['path'], 'rpath': r['rpath'], 'slots': slots, 'pcm': r['pcm'], 'nwl': r['nwl'],
+                   'preblocked': pre}
+            if s.world['kind'] == 'net':
+                sites = s.world['meta']['sites']
+                a = sites[r['path'][0] % len(sites)]
+                b = sites[(r['path'][0] + 1 + (r['path'][-1] % (len(sites) - 1))) % len(sites)]
+                out.update({'route': [a, b], 'bidir': bool(r['rpath']), 'path': [], 'rpath': []})
+            return out
 
         @rule(reqs=st.lists(request_strategy(), min_size=1, max_size=3), pol=st.integers(0, 15))
         def assign(self, reqs, pol):
@@ -492,6 +643,8 @@ def make_machine(prop, tier, cfg):
             @rule(dl=st.integers(-10, 10), dh=st.integers(-10, 10), us=st.lists(
                 st.tuples(st.integers(0, 100), st.integers(0, 100)), min_size=1, max_size=2))
             def extend(self, dl, dh, us):
+                if self.sess.world['kind'] == 'net' or self.sess.discarded:
+                    return
                 cmin, cmax = self.sess.common_extent()
                 lo, hi = cmin + dl, cmax + dh
                 if hi - lo < 12:
